@@ -16,7 +16,7 @@ RULE = ("Hypothesis draws an encryption plan (21 alg values x 8 enc values x zip
         "form; joserfc encrypts and decrypts (all recipients via key set, and each single recipient with any-recipient validation); "
         "oracle: exact plaintext octets and header members in their positions (extras only from kid/epk/iv/tag/p2s/p2c/skid). "
         "Forbidden combinations (direct mode with several recipients, ECDH-1PU+KW with non-CBC enc) must be refused at encryption "
-        "time. non-trivial: every case; distinct = plan label x key mode x form.")
+        "time. For the JSON serializations the JWE object is also encrypted twice (template reuse), the second output is judged. non-trivial: every case; distinct = plan label x key mode x form.")
 ASSUMPTIONS = ["keys are built with `cryptography` number objects from generated material",
                "draft algorithms (ECDH-1PU, C20P/XC20P) are registered explicitly once per process, as documented"]
 BUDGET_S = {"quick": 85, "thorough": 1200}
